@@ -201,7 +201,7 @@ Proof.
   apply sorted_unique; auto. intros k. rewrite K1, K2. apply K.
 Qed.
 
-Theorem step_readdir_run (p : path) s u m x ch rest chs : Coherent s -> upper s = Some u -> visp (u :: lowers s) [] p ->
+Theorem step_readdir_run (p : path) s u m x ch rest (chs : list (name * tree)) : Coherent s -> upper s = Some u -> visp (u :: lowers s) [] p ->
   mstack (u :: lowers s) p = Dir m x ch :: rest -> NoDup (map fst chs) ->
   (forall k, afind k chs = None <-> match mstack (u :: lowers s) (p ++ [k]) with t :: _ => is_whT t = true | [] => True end) ->
   exists s', step (OReaddir p) s = (Ok (sjoin (map fst (ssort chs))), s') /\ sd s s'.
@@ -212,7 +212,7 @@ Proof.
   exists s2. split; [|exact Hsd2]. cbn [step].
   rewrite (bind_ok _ _ _ _ _ E1), (bind_ok _ _ _ _ _ Elk), (bind_ok _ _ _ _ _ (get_node_ok p s2 n2 Hg2)), Hw2.
   assert (Es : stat_node n2 s2 = (Ok (Dir m x ch), s2)) by (unfold stat_node; rewrite Hst; reflexivity).
-  rewrite (bind_ok _ _ _ _ _ Es). cbn [is_dirT negb ret]. f_equal. f_equal. f_equal.
+  rewrite (bind_ok _ _ _ _ _ Es). cbn [is_dirT negb]. unfold ret. f_equal. f_equal. f_equal.
   pose proof HC2 as (_ & _ & HCT2). pose proof (HCT2 p n2 Hg2) as N2. cbn [app] in N2.
   destruct (ok_ld _ _ _ _ N2 Hld) as (_ & _ & Kids). pose proof (ok_nodup _ _ _ _ N2) as Hnd2.
   apply names_sorted_eq; [apply keys_filter; exact Hnd2|exact Hnd|]. intros k. rewrite (in_keys_afind k chs).
@@ -232,7 +232,7 @@ Proof.
     + destruct (Hchild c eq_refl) as (t & r' & Em & Hwc). apply in_map_iff. exists (k, c). split; [reflexivity|]. apply filter_In. split; [apply afind_In; exact Ec|].
       cbn [snd]. rewrite Hwc. destruct (is_whT t) eqn:Ew; [|reflexivity]. exfalso. apply Hsome. apply Hchs. rewrite Em. exact Ew.
     + exfalso. apply Hsome. apply Hchs. apply Kids in Ec. rewrite <- lstack_snoc in Ec.
-      pose proof (lstack_rel s2 u (p ++ [k]) Hu2) as R. rewrite Ec, L2 in R. inversion R. exact I.
+      pose proof (lstack_rel s2 u (p ++ [k]) Hu2) as R. unfold path, name in *. rewrite Ec, L2 in R. inversion R. exact I.
 Qed.
 
 Theorem refines_readdir s (p : path) u t0 rest v :
@@ -343,13 +343,15 @@ Proof.
             (forall t0, exists a, ro_ans o t0 = Some (p, a)) -> refines_at s o v /\ upper (run_op o s) = Some u).
   { intros p H Hk Ho. apply andb_prop in H. destruct H as [H1 H2]. apply Nat.ltb_lt in H1.
     destruct (vis_head u (lowers s) p Hud H2) as (t0 & rest & Hms & Hw). destruct (Ho t0) as [a Hoa].
-    exact (refines_ro s o p a u t0 rest v Hoa Hk HC Hu H2 Hms Hw H1 Hv). }
+    destruct (refines_ro s o p a u t0 rest v Hoa Hk HC Hu H2 Hms Hw H1 Hv) as [A B]. split; [exact A|rewrite B; exact Hu]. }
   destruct o; try discriminate.
   - destruct (split_last p) as [[pp nm]|] eqn:Esp; [|discriminate]. apply split_last_spec in Esp. subst p.
-    apply andb_prop in Hd. destruct Hd as [H1 H2]. apply Nat.ltb_lt in H1. exact (refines_lookup s pp nm u v HC Hu H2 H1 Hv).
+    apply andb_prop in Hd. destruct Hd as [H1 H2]. apply Nat.ltb_lt in H1.
+    destruct (refines_lookup s pp nm u v HC Hu H2 H1 Hv) as [A B]. split; [exact A|rewrite B; exact Hu].
   - apply (Hone p Hd I). intros t0. cbn [ro_ans]. eauto.
   - apply andb_prop in Hd. destruct Hd as [H1 H2]. apply Nat.ltb_lt in H1.
-    destruct (vis_head u (lowers s) p Hud H2) as (t0 & rest & Hms & Hw). exact (refines_readdir s p u t0 rest v HC Hu H2 Hms Hw H1 Hv).
+    destruct (vis_head u (lowers s) p Hud H2) as (t0 & rest & Hms & Hw).
+    destruct (refines_readdir s p u t0 rest v HC Hu H2 Hms Hw H1 Hv) as [A B]. split; [exact A|rewrite B; exact Hu].
   - apply (Hone p Hd I). intros t0. cbn [ro_ans]. eauto.
   - apply (Hone p Hd I). intros t0. cbn [ro_ans]. eauto.
   - apply andb_prop in Hd. destruct Hd as [Hro Hd]. apply (Hone p Hd I). intros t0. cbn [ro_ans]. rewrite Hro. eauto.
